@@ -229,7 +229,13 @@ def gen_flat(tier, rng):
     ad = FlatLine()
     for c in cases:
         c["dom"] = ad.in_domain(c)
-    cases += big_shift_copies(cases, "xs", rng, 150 if tier == "quick" else 1500, lambda c: True)
+    big = big_shift_copies(cases, "xs", rng, 150 if tier == "quick" else 1500, lambda c: True)
+    for i, d in enumerate(big):
+        if i % 2 == 0:
+            # a tolerance far below the spacing of the (large) values: only exactly repeated values are flat;
+            # max - min < tol must not be rearranged into max < min + tol
+            d["tol"] = core.fr(F(1, 2 ** 30))
+    cases += big
     return cases
 
 
